@@ -23,6 +23,7 @@ import (
 	"fmt"
 	"os"
 	"path/filepath"
+	"strings"
 	"sync"
 	"testing"
 	"time"
@@ -135,9 +136,10 @@ type c11nFix struct {
 	pub   *c11nPublisher
 	trust *trust.Config
 	dids  [3]did.DID
-	kid1  [3]string // key present since t0
-	kid2  [3]string // key present since t1 (later)
-	t00   time.Time // before any DID existed
+	kid1  [3]string         // key present since t0
+	kid2  [3]string         // key present since t1 (later)
+	near  map[string]string // near-miss attacker DID -> its key id (key present since t0)
+	t00   time.Time         // before any DID existed
 	t0    time.Time
 	t1    time.Time
 }
@@ -182,6 +184,24 @@ func c11nFixture(t *testing.T) *c11nFix {
 				}
 			}
 		}
+		// attackers whose DID is a near miss of an issuer DID: suffix, extra segment, other case
+		f.near = map[string]string{}
+		for _, owner := range []int{c11nOwnerA, c11nOwnerB} {
+			for _, name := range c11nNearMisses(f.dids[owner].String()) {
+				d := did.MustParseDID(name)
+				kid := name + "#key-1"
+				_, pub, err := f.keys.New(f.ctx, crypto.StringNamingFunc(kid))
+				if err != nil {
+					t.Fatalf("HARNESS: key: %v", err)
+				}
+				vm, err := did.NewVerificationMethod(did.MustParseDIDURL(kid), ssi.JsonWebKey2020, d, pub)
+				if err != nil {
+					t.Fatalf("HARNESS: vm: %v", err)
+				}
+				f.res.keys[name] = append(f.res.keys[name], c11nKey{vm: vm, from: f.t0})
+				f.near[name] = kid
+			}
+		}
 		back, err := eng.GetProvider("vcr").GetKVStore("backup-issued-credentials", storage.PersistentStorageClass)
 		if err != nil {
 			t.Fatalf("HARNESS: %v", err)
@@ -200,6 +220,11 @@ func c11nFixture(t *testing.T) *c11nFix {
 		t.Fatalf("HARNESS: fixture construction failed earlier")
 	}
 	return c11nTheF
+}
+
+// c11nNearMisses: DIDs an attacker can register that look like `victim`: victim + suffix, victim + extra segment, other case.
+func c11nNearMisses(victim string) []string {
+	return []string{victim + "x", victim + ":sub", strings.ToLower(victim)}
 }
 
 // signRevocation builds and signs a revocation the way issuer.buildRevocation does, with every field chosen by the caller.
@@ -238,7 +263,8 @@ type c11nCase struct {
 }
 
 var c11nGenuine = []string{"real", "genuine-now", "genuine-past", "genuine-key2"}
-var c11nForged = []string{"other-signer", "names-attacker", "names-other-issuer", "vm-other-did", "date-before-key", "date-before-did", "tampered", "tampered", "tampered", "retarget", "redate", "attacker-own-subject"}
+var c11nForged = []string{"other-signer", "names-attacker", "names-other-issuer", "vm-other-did", "date-before-key", "date-before-did", "tampered", "tampered", "tampered", "retarget", "redate", "attacker-own-subject",
+	"issuer-prefix:did", "issuer-prefix:method", "issuer-prefix:common", "issuer-prefix:long", "issuer-near:suffix", "issuer-near:segment", "issuer-near:case"}
 
 func c11nGen(t *rapid.T) c11nCase {
 	var c c11nCase
@@ -418,6 +444,28 @@ func (r *c11nRun) opReg(op c11nOp) (genuineAccepted bool) {
 		payload, err = f.signRevocation(f.dids[owner].URI(), id, f.t1.Add(-24*time.Hour), "", f.kid2[owner], f.keys)
 	case "date-before-did":
 		payload, err = f.signRevocation(f.dids[owner].URI(), id, f.t00, "", f.kid1[owner], f.keys)
+	case "issuer-prefix:did", "issuer-prefix:method", "issuer-prefix:common", "issuer-prefix:long":
+		// the issuer is a proper string prefix of the victim's DID (degenerate "did:", "did:<method>:", the part the
+		// attacker's own DID shares with it, or all but the last character); signed, correctly, by a resolvable key of
+		// another party whose key id has that string as prefix too
+		victim := f.dids[owner].String()
+		iss, kid := "did:", f.kid1[att]
+		switch variant {
+		case "issuer-prefix:method":
+			iss = "did:nuts:"
+		case "issuer-prefix:common":
+			iss = "did:nuts:C11"
+		case "issuer-prefix:long":
+			iss, kid = victim[:len(victim)-1], f.kid1[other]
+		}
+		if !strings.HasPrefix(victim, iss) || !strings.HasPrefix(kid, iss) || iss == victim {
+			x.Fatalf("fixture: %q is not a proper common prefix of %q and %q", iss, victim, kid)
+		}
+		payload, err = f.signRevocation(ssi.MustParseURI(iss), id, now, "", kid, f.keys)
+	case "issuer-near:suffix", "issuer-near:segment", "issuer-near:case":
+		// the attacker's DID is a near miss of the victim's and names itself as issuer, with its own key
+		nm := c11nNearMisses(f.dids[owner].String())[map[string]int{"issuer-near:suffix": 0, "issuer-near:segment": 1, "issuer-near:case": 2}[variant]]
+		payload, err = f.signRevocation(ssi.MustParseURI(nm), id, now, "", f.near[nm], f.keys)
 	case "retarget", "redate":
 		// a genuine revocation whose subject (-> another credential of the same issuer) or date was rewritten under the old proof
 		var gen []byte
